@@ -94,7 +94,7 @@ def _run_one(args):
         return {"id": mid, "status": "error", "why": traceback.format_exc()[-600:]}
 
 
-def run_for(prop: str, jobs: int = 16) -> Dict[str, Any]:
+def run_for(prop: str, jobs: int = int(os.environ.get("SA_JOBS", "4"))) -> Dict[str, Any]:
     try:
         mod = importlib.import_module("sa.selftest.%s" % prop)
     except ModuleNotFoundError:
